@@ -4,6 +4,7 @@ import (
 	"flag"
 	"fmt"
 	"os"
+	"runtime/pprof"
 	"sort"
 	"strings"
 
@@ -37,7 +38,13 @@ func main() {
 	tier := fs.String("tier", "quick", "quick|thorough")
 	locks := fs.Bool("locks", false, "lock discipline obligations")
 	workers := fs.Int("j", 10, "parallel obligations")
+	cpuprof := fs.String("cpuprofile", "", "write cpu profile")
 	fs.Parse(os.Args[2:])
+	if *cpuprof != "" {
+		f, _ := os.Create(*cpuprof)
+		pprof.StartCPUProfile(f)
+		defer pprof.StopCPUProfile()
+	}
 	keepScratch = *keep
 	defer cleanupScratch()
 
